@@ -83,13 +83,13 @@ def GoodSeq (n : Nat) (on : List Nat) : List Undo → Row → Prop
   | [], _ => True
   | u :: rest, r => undoPre n on u r ∧ GoodSeq n on rest (undoRow n u r)
 
-def liveOf (r : Option Row) : Option (List Int) :=
+def liveOf (r : Option Row) : Option (List Val) :=
   match r with
   | some r => if r.alive then some r.vals else none
   | none => none
 
 /-- the live content of row `(t,i)`: `some vals` when the row exists and is alive -/
-def liveAt (s : State) (t i : Nat) : Option (List Int) := liveOf (rowAt s t i)
+def liveAt (s : State) (t i : Nat) : Option (List Val) := liveOf (rowAt s t i)
 
 /-- the row `(t,i)` after undoing the log `L` (chronological) on the tables of `s` -/
 def restoredRow (s : State) (L : List Undo) (t i : Nat) : Option Row :=
@@ -831,8 +831,8 @@ theorem Inv.no_lock_new {s : State} (h : Inv s) {t : Nat} {T : Table} (hT : s.ta
     rw [hT] at hT0; cases hT0
     exact absurd hlt (Nat.lt_irrefl _)
 
-theorem txInsert_ok_form {s : State} {A t : Nat} {vals : List Int} {T : Table} {x : Tx}
-    (hg : gate s A = none) (hx : s.txs A = some x) (hT : s.tables t = some T) (hlen : vals.length = T.ncols)
+theorem txInsert_ok_form {s : State} {A t : Nat} {vals : List Val} {T : Table} {x : Tx}
+    (hg : gate s A = none) (hx : s.txs A = some x) (hT : s.tables t = some T) (hlen : rowBad T vals = false)
     (hnl : s.locks t T.rows.length = none) :
     txInsert s A t vals =
       (setTx (setTable (lockAll s A t [T.rows.length]) t (insertT T vals)) A
@@ -853,7 +853,7 @@ theorem getElem?_append_single_ne {α : Type} (l : List α) (a : α) (i : Nat) (
   · have h1 : l.length < i := by omega
     rw [List.getElem?_eq_none_iff.2 (by simp; omega), List.getElem?_eq_none_iff.2 (by omega)]
 
-theorem stepOK_txInsert {s : State} (h : Inv s) (A t : Nat) (vals : List Int) :
+theorem stepOK_txInsert {s : State} (h : Inv s) (A t : Nat) (vals : List Val) :
     StepOK s (txInsert s A t vals).1 (some A) := by
   cases hg : gate s A with
   | some e =>
@@ -866,9 +866,10 @@ theorem stepOK_txInsert {s : State} (h : Inv s) (A t : Nat) (vals : List Int) :
       have : (txInsert s A t vals).1 = s := by unfold txInsert; rw [hg]; simp only [hT]
       rw [this]; exact StepOK.refl h _
     | some T =>
-      by_cases hlen : vals.length = T.ncols
+      by_cases hbad : rowBad T vals = false
       · have hnl := h.no_lock_new hT
-        rw [txInsert_ok_form hg hx hT hlen hnl]
+        have hlen : vals.length = T.ncols := rowBad_false_len hbad
+        rw [txInsert_ok_form hg hx hT hbad hnl]
         generalize hu : Undo.inserted t T.rows.length ((T.hashOn ++ T.btreeOn).map fun c => (c, val vals c)) = u
         have hut : u.table = t := by rw [← hu]; rfl
         have hur : u.row = T.rows.length := by rw [← hu]; rfl
@@ -964,7 +965,7 @@ theorem stepOK_txInsert {s : State} (h : Inv s) (A t : Nat) (vals : List Int) :
             cases he
             exact Or.inr hW.2.2.2.2 }
       · have : (txInsert s A t vals).1 = s := by
-          unfold txInsert; rw [hg]; simp only [hT, ne_eq, hlen, not_false_eq_true, ↓reduceIte]
+          unfold txInsert; rw [hg]; simp only [hT, (Bool.not_eq_false _).mp hbad, ↓reduceIte]
         rw [this]; exact StepOK.refl h _
 
 /-! ## the per-row bodies of tx_update / tx_delete -/
@@ -1041,16 +1042,16 @@ theorem write_existing {s : State} (h : Inv s) {A t i : Nat} {x : Tx} {T T' : Ta
     idx := hW.2.1
     chain := hW.2.2.1 }
 
-theorem applyUpdFrom_length (upd : List (Nat × Int)) (c : Nat) (vals : List Int) :
+theorem applyUpdFrom_length (upd : List (Nat × Val)) (c : Nat) (vals : List Val) :
     (applyUpdFrom upd c vals).length = vals.length := by
   induction vals generalizing c with
   | nil => simp [applyUpdFrom]
   | cons v vs ih => simp [applyUpdFrom, ih]
 
-theorem applyUpd_length (upd : List (Nat × Int)) (vals : List Int) : (applyUpd upd vals).length = vals.length :=
+theorem applyUpd_length (upd : List (Nat × Val)) (vals : List Val) : (applyUpd upd vals).length = vals.length :=
   applyUpdFrom_length upd 0 vals
 
-theorem updateRow_form {s : State} {A t i : Nat} {upd : List (Nat × Int)} {x : Tx} {T : Table} {r : Row}
+theorem updateRow_form {s : State} {A t i : Nat} {upd : List (Nat × Val)} {x : Tx} {T : Table} {r : Row}
     (hx : s.txs A = some x) (hT : s.tables t = some T) (hr : T.rows[i]? = some r) :
     updateRow A t upd s i =
       setTable (setTx s A (some { x with undo := x.undo ++ [.updated t i r.vals (mkChg (T.hashOn ++ T.btreeOn) upd r.vals)] }))
@@ -1066,7 +1067,7 @@ theorem deleteRow_form {s : State} {A t i : Nat} {x : Tx} {T : Table} {r : Row}
   simp only [deleteRow, hT, hr, recordUndo, hx]
   rfl
 
-theorem updateRow_ok {s : State} (h : Inv s) {A t i : Nat} {upd : List (Nat × Int)} {x : Tx} {T : Table} {r : Row}
+theorem updateRow_ok {s : State} (h : Inv s) {A t i : Nat} {upd : List (Nat × Val)} {x : Tx} {T : Table} {r : Row}
     (hx : s.txs A = some x) (hT : s.tables t = some T) (hr : T.rows[i]? = some r) (ha : r.alive = true)
     (hlock : ∃ l, s.locks t i = some l ∧ l.tx = A) (hupd : ∀ p ∈ upd, p.1 < T.ncols) :
     Inv (updateRow A t upd s i) ∧ Own s (updateRow A t upd s i) A ∧
@@ -1151,7 +1152,7 @@ theorem Own.of_same {s s' : State} {A : Nat} {x : Tx} (hx : s.txs A = some x) (h
   intro t i
   simp only [restoredRow, ncolsAt, rowAt, ht]
 
-theorem foldl_updateRow_ok {A t : Nat} {upd : List (Nat × Int)} (rows : List Nat) (s : State) (h : Inv s) {x : Tx}
+theorem foldl_updateRow_ok {A t : Nat} {upd : List (Nat × Val)} (rows : List Nat) (s : State) (h : Inv s) {x : Tx}
     (hx : s.txs A = some x)
     (hrows : ∀ i ∈ rows, ∃ T r, s.tables t = some T ∧ T.rows[i]? = some r ∧ r.alive = true)
     (hlock : ∀ i ∈ rows, ∃ l, s.locks t i = some l ∧ l.tx = A)
@@ -1238,7 +1239,7 @@ theorem stepOK_of_fold {s s1 s' : State} {A : Nat} {x : Tx} (_h : Inv s) (hx : s
     cases he
     exact Or.inr ((Own.of_same hx ht1 (by rw [hx1])).trans hf.2.1)
 
-theorem stepOK_txUpdate {s : State} (h : Inv s) (A t : Nat) (cond : Cond) (upd : List (Nat × Int)) :
+theorem stepOK_txUpdate {s : State} (h : Inv s) (A t : Nat) (cond : Cond) (upd : List (Nat × Val)) :
     StepOK s (txUpdate s A t cond upd).1 (some A) := by
   cases hg : gate s A with
   | some e =>
@@ -1251,7 +1252,7 @@ theorem stepOK_txUpdate {s : State} (h : Inv s) (A t : Nat) (cond : Cond) (upd :
       have : (txUpdate s A t cond upd).1 = s := by unfold txUpdate; rw [hg]; simp only [hT]
       rw [this]; exact StepOK.refl h _
     | some T =>
-      by_cases hc : upd.any (fun p => decide (p.1 ≥ T.ncols)) = true
+      by_cases hc : updBad T upd = true
       · have : (txUpdate s A t cond upd).1 = s := by unfold txUpdate; rw [hg]; simp only [hT, hc, ↓reduceIte]
         rw [this]; exact StepOK.refl h _
       · by_cases hb : lockBlocked s A t (matching T cond) = true
@@ -1261,11 +1262,7 @@ theorem stepOK_txUpdate {s : State} (h : Inv s) (A t : Nat) (cond : Cond) (upd :
         · have hform : (txUpdate s A t cond upd).1 = (matching T cond).foldl (updateRow A t upd)
               (if (matching T cond).isEmpty then s else lockAll s A t (matching T cond)) := by
             unfold txUpdate; rw [hg]; simp only [hT, hc, hb, Bool.false_eq_true, ↓reduceIte]
-          have hupd : ∀ p ∈ upd, p.1 < T.ncols := by
-            intro p hp
-            rw [Bool.not_eq_true, List.any_eq_false] at hc
-            have := hc p hp
-            simpa using this
+          have hupd : ∀ p ∈ upd, p.1 < T.ncols := updBad_false_cols (Bool.not_eq_true _ ▸ hc)
           have hgone : ∀ B, Gone s B → Gone (txUpdate s A t cond upd).1 B := fun B hB => gone_txUpdate hB A t cond upd
           rw [hform] at hgone ⊢
           cases hm : matching T cond with
@@ -1473,12 +1470,12 @@ theorem Inv.ntables_none {s : State} (h : Inv s) : s.tables s.ntables = none := 
   | none => rfl
   | some T => exact absurd (h.tabLt _ T hT) (Nat.lt_irrefl _)
 
-theorem stepOK_createTable {s : State} (h : Inv s) (n : Nat) : StepOK s (createTable s n).1 none := by
+theorem stepOK_createTable {s : State} (h : Inv s) (n : Nat) (nl : List Nat) : StepOK s (createTable s n nl).1 none := by
   have hnone := h.ntables_none
-  have htab : ∀ k, (createTable s n).1.tables k =
-      if k = s.ntables then some { ncols := n, rows := [], hashOn := [], btreeOn := [], hashE := [], btreeE := [] }
+  have htab : ∀ k, (createTable s n nl).1.tables k =
+      if k = s.ntables then some { ncols := n, nullable := nl, rows := [], hashOn := [], btreeOn := [], hashE := [], btreeE := [] }
       else s.tables k := fun k => rfl
-  have hold : ∀ k T, s.tables k = some T → (createTable s n).1.tables k = some T := by
+  have hold : ∀ k T, s.tables k = some T → (createTable s n nl).1.tables k = some T := by
     intro k T hT
     rw [htab]
     split
@@ -1510,7 +1507,7 @@ theorem stepOK_createTable {s : State} (h : Inv s) (n : Nat) : StepOK s (createT
         intro k T hT
         rw [htab] at hT
         split at hT
-        · cases hT; exact idxExact_empty n
+        · cases hT; exact idxExact_empty n nl
         · exact h.idx k T hT
       chain := by
         intro B xB hxB k T i r hT hr
@@ -1659,7 +1656,7 @@ theorem stepOK_auto {s : State} (h : Inv s) {f : State → Nat → State × Res}
   have h2 := stepOK_finishAuto (p := f (begin s).1 (begin s).2) h1.inv (begin s).2
   exact StepOK.comp h c1 h2 (hI _ _ rfl rfl)
 
-theorem stepOK_insert {s : State} (h : Inv s) (t : Nat) (vals : List Int) : StepOK s (insert s t vals).1 none := by
+theorem stepOK_insert {s : State} (h : Inv s) (t : Nat) (vals : List Val) : StepOK s (insert s t vals).1 none := by
   unfold insert
   split
   · exact StepOK.refl h _
@@ -1667,7 +1664,7 @@ theorem stepOK_insert {s : State} (h : Inv s) (t : Nat) (vals : List Int) : Step
     · exact StepOK.refl h _
     · exact stepOK_auto h (f := fun s1 I => txInsert s1 I t vals) (fun s1 h1 => stepOK_txInsert h1 _ t vals)
 
-theorem stepOK_update {s : State} (h : Inv s) (t : Nat) (cond : Cond) (upd : List (Nat × Int)) :
+theorem stepOK_update {s : State} (h : Inv s) (t : Nat) (cond : Cond) (upd : List (Nat × Val)) :
     StepOK s (update s t cond upd).1 none := by
   unfold update
   split
@@ -1757,7 +1754,7 @@ theorem step_ok {s : State} (h : Inv s) (op : Op) (hc : stepCalm s op = true) : 
   | insert t v => exact stepOK_insert h t v
   | update t c u => exact stepOK_update h t c u
   | delete t c => exact stepOK_delete h t c
-  | createTable n => exact stepOK_createTable h n
+  | createTable n nl => exact stepOK_createTable h n nl
   | createIndex t c => exact stepOK_createIndex h t c (untouched_of h hc)
   | createBtree t c => exact stepOK_createBtree h t c (untouched_of h hc)
   | dropIndex t c => exact stepOK_dropIndex h t c (untouched_of h hc)
@@ -1943,7 +1940,7 @@ theorem ext_setTable {s : State} {t : Nat} {T T' : Table} (hT : s.tables t = som
     · exact ⟨T', rfl⟩
     · exact ⟨T0, h⟩
 
-theorem ext_updateRow (A t : Nat) (upd : List (Nat × Int)) (s : State) (i : Nat) : Ext s (updateRow A t upd s i) := by
+theorem ext_updateRow (A t : Nat) (upd : List (Nat × Val)) (s : State) (i : Nat) : Ext s (updateRow A t upd s i) := by
   unfold updateRow
   split
   · exact Ext.of_eq rfl rfl
@@ -2017,7 +2014,7 @@ theorem lr_rollback {s : State} (h : LR s) (A : Nat) : LR (rollback s A).1 := by
   · exact h
   · exact lr_undo_release h _ A
 
-theorem lr_txInsert {s : State} (h : LR s) (A t : Nat) (vals : List Int) : LR (txInsert s A t vals).1 := by
+theorem lr_txInsert {s : State} (h : LR s) (A t : Nat) (vals : List Val) : LR (txInsert s A t vals).1 := by
   unfold txInsert
   split
   · exact h
@@ -2053,7 +2050,7 @@ theorem lr_txInsert {s : State} (h : LR s) (A t : Nat) (vals : List Int) : LR (t
           · rename_i hc; exact Or.inr hc
           · exact Or.inl hl
 
-theorem lr_txUpdate {s : State} (h : LR s) (A t : Nat) (c : Cond) (u : List (Nat × Int)) : LR (txUpdate s A t c u).1 := by
+theorem lr_txUpdate {s : State} (h : LR s) (A t : Nat) (c : Cond) (u : List (Nat × Val)) : LR (txUpdate s A t c u).1 := by
   unfold txUpdate
   split
   · exact h
@@ -2139,13 +2136,13 @@ theorem lr_step {s : State} (h : LR s) (op : Op) : LR (step s op).1 := by
     all_goals first
       | exact h
       | exact lr_finishAuto (lr_txDelete (lr_begin h) _ _ _) _
-  | createTable n =>
+  | createTable n nl =>
     have hnone : s.tables s.ntables = none := by
       cases hT : s.tables s.ntables with
       | none => rfl
       | some T => exact absurd (h.tabLt _ T hT) (Nat.lt_irrefl _)
-    have htab : ∀ k, (step s (.createTable n)).1.tables k =
-        if k = s.ntables then some { ncols := n, rows := [], hashOn := [], btreeOn := [], hashE := [], btreeE := [] }
+    have htab : ∀ k, (step s (.createTable n nl)).1.tables k =
+        if k = s.ntables then some { ncols := n, nullable := nl, rows := [], hashOn := [], btreeOn := [], hashE := [], btreeE := [] }
         else s.tables k := fun k => rfl
     exact {
       tabLt := by
@@ -2223,7 +2220,7 @@ theorem lr_run {s : State} (h : LR s) (ops : List Op) : LR (run s ops) := by
   | cons op ops ih => exact ih (lr_step h op)
 
 /-- under `LR` a successful `tx_insert` leaves the new row locked by its transaction -/
-theorem txInsert_locks_row {s : State} (h : LR s) {A t n : Nat} {vals : List Int} {T : Table} (hT : s.tables t = some T)
+theorem txInsert_locks_row {s : State} (h : LR s) {A t n : Nat} {vals : List Val} {T : Table} (hT : s.tables t = some T)
     (hok : (txInsert s A t vals).2 = .okN n) : n = T.rows.length ∧ holder (txInsert s A t vals).1 t n = some A := by
   have hnl : s.locks t T.rows.length = none := by
     cases hl : s.locks t T.rows.length with
@@ -2236,7 +2233,7 @@ theorem txInsert_locks_row {s : State} (h : LR s) {A t n : Nat} {vals : List Int
   | some e => unfold txInsert at hok; rw [hg] at hok; cases hok
   | none =>
     obtain ⟨x, hx⟩ := gate_none hg
-    by_cases hlen : vals.length = T.ncols
+    by_cases hlen : rowBad T vals = false
     · rw [txInsert_ok_form hg hx hT hlen hnl] at hok ⊢
       simp only [Res.okN.injEq] at hok
       subst hok
@@ -2244,7 +2241,7 @@ theorem txInsert_locks_row {s : State} (h : LR s) {A t n : Nat} {vals : List Int
       simp [holder, lockAll, Lock.expired]
     · unfold txInsert at hok
       rw [hg] at hok
-      simp only [hT, ne_eq, hlen, not_false_eq_true, ↓reduceIte] at hok
+      simp only [hT, (Bool.not_eq_false _).mp hlen, ↓reduceIte] at hok
       cases hok
 
 end Neumann.RelTx
@@ -2255,8 +2252,8 @@ open Neumann.RelTx
 
 def s0 : State := init 30000 60000
 /-- table 0 with a hash and a b-tree index on column 0, one committed row `[1,1]` (slab id 0) -/
-def setupIdx : List Op := [.createTable 2, .createIndex 0 0, .createBtree 0 0, .insert 0 [1, 1]]
-def setupPlain : List Op := [.createTable 2, .insert 0 [1, 1]]
+def setupIdx : List Op := [.createTable 2 [], .createIndex 0 0, .createBtree 0 0, .insert 0 [1, 1]]
+def setupPlain : List Op := [.createTable 2 [], .insert 0 [1, 1]]
 
 /-- a transaction (id 2) that updated row 0, deleted row 1 and inserted row 2 — each row named once -/
 def sThree : State :=
@@ -2265,7 +2262,7 @@ def sThree : State :=
 /-- a calm script: DDL before the transactions and on an untouched table, a tick inside the lock
     timeout, transactions 3 (A), 4 (B) open, 6 (C) committed, non-transactional statements -/
 def calmOps : List Op := [
-  .createTable 2, .createIndex 0 0, .createBtree 0 0, .createBtree 0 1,
+  .createTable 2 [], .createIndex 0 0, .createBtree 0 0, .createBtree 0 1,
   .insert 0 [1, 1], .insert 0 [2, 2], .insert 0 [3, 3],
   .begin, .begin,
   .txUpdate 3 0 (.idEq 0) [(0, 4)],
@@ -2279,16 +2276,16 @@ def calmOps : List Op := [
   .update 0 (.idEq 2) [(0, 8)],
   .txUpdate 4 0 .all [(0, 0)],
   .begin, .txUpdate 6 0 (.idEq 2) [(1, 1)], .commit 6,
-  .createTable 1, .createIndex 1 0]
+  .createTable 1 [], .createIndex 1 0]
 
 /-- the shape of the seeded regression C09_2: three columns (0 = hash-indexed, 1 = b-tree-indexed,
     2 = not indexed), three committed rows, transaction 3 open -/
-def sameValueSetup : List Op := [.createTable 3, .createIndex 0 0, .createBtree 0 1,
+def sameValueSetup : List Op := [.createTable 3 [], .createIndex 0 0, .createBtree 0 1,
   .insert 0 [1, 3, 100], .insert 0 [1, 5, 200], .insert 0 [2, 7, 300], .begin]
 
 /-- an ORM-style "write all columns" UPDATE of row 1: column 2 changes, the indexed columns 0 and 1
     are written back with the values the row already holds -/
-def sameValueUpd : List (Nat × Int) := [(0, 1), (1, 5), (2, 150)]
+def sameValueUpd : List (Nat × Val) := [(0, 1), (1, 5), (2, 150)]
 
 def sameValueOps : List Op := sameValueSetup ++ [.txUpdate 3 0 (.idEq 1) sameValueUpd]
 
